@@ -41,12 +41,12 @@ func regexpFromGlob(pattern string) string {
 		old string
 		new string
 	}{
-		{old: "*", new: ".*"},
-		{old: "?", new: "."},
+		{old: "\\*", new: ".*"},
+		{old: "\\?", new: "."},
 	}
-	re2Pattern := pattern
+	re2Pattern := regexp.QuoteMeta(pattern)
 	for _, repstr := range repstrs {
 		re2Pattern = strings.ReplaceAll(re2Pattern, repstr.old, repstr.new)
 	}
-	return "^" + re2Pattern + "$"
+	return "(?s)^" + re2Pattern + "$"
 }
